@@ -510,3 +510,26 @@ package system
 //@   ensures dtPrec(dt.l) == 1 && isCalUnit(input.unit) ==> err == nil && tY(res.dateTime) == yearAfter(tY(t), tMo(t), 0 - monthsOf(input.unit, v)) && tMo(res.dateTime) == monthAfter(tY(t), tMo(t), 0 - monthsOf(input.unit, v))
 //@   ensures dtPrec(dt.l) >= 2 && dtPrec(dt.l) < 5 && isUnit(input.unit, "day") ==> err == nil && tInst(res.dateTime) == tInst(t) - v * 86400000000000
 //@   assigns nothing
+//
+// ---- C13/C15: the literal parsers, named as deterministic functions of the text
+// (k: 1 Integer, 2 Decimal, 4 Date, 5 DateTime, 6 Time) ------------------------------------------
+//@ func ParseInteger(value) (res, err)
+//@   defines (err == nil) == parseOkK(1, value)
+//@   defines err == nil ==> box(res) == parseValK(1, value)
+//@   assigns nothing
+//@ func ParseDecimal(value) (res, err)
+//@   defines (err == nil) == parseOkK(2, value)
+//@   defines err == nil ==> box(res) == parseValK(2, value)
+//@   assigns nothing
+//@ func ParseDate(value) (res, err)
+//@   defines (err == nil) == parseOkK(4, value)
+//@   defines err == nil ==> box(res) == parseValK(4, value)
+//@   assigns nothing
+//@ func ParseDateTime(value) (res, err)
+//@   defines (err == nil) == parseOkK(5, value)
+//@   defines err == nil ==> box(res) == parseValK(5, value)
+//@   assigns nothing
+//@ func ParseTime(value) (res, err)
+//@   defines (err == nil) == parseOkK(6, value)
+//@   defines err == nil ==> box(res) == parseValK(6, value)
+//@   assigns nothing
